@@ -6,6 +6,7 @@ use crate::prng::Rng;
 use crate::run::{eval_case_from_src, Case};
 use crate::sx::parse_all;
 use crate::wire::{sx_to_value, value_to_sx};
+use cel_interpreter::objects::Key;
 use cel_interpreter::Value;
 use std::cmp::Ordering;
 use std::sync::Arc;
@@ -205,6 +206,22 @@ pub fn generate(tier: Tier, rng: &mut Rng) -> Vec<Case> {
         if let Some(mut c) = eval_case_from_src(&spec, &src) {
             c.tags = vec!["program"];
             out.push(c);
+        }
+    }
+    // aliasing: one value compared with itself through every route (variables share their Arc)
+    let mut alias_vals = vals.clone();
+    let nan = Value::Float(f64::NAN);
+    alias_vals.push(Value::List(Arc::new(vec![Value::Int(1), Value::List(Arc::new(vec![nan.clone()]))])));
+    alias_vals.push(Value::Map(cel_interpreter::objects::Map { map: Arc::new([(Key::Int(1), nan.clone())].into_iter().collect()) }));
+    alias_vals.push(Value::Map(cel_interpreter::objects::Map { map: Arc::new([(Key::String(Arc::new("k".into())), Value::List(Arc::new(vec![nan.clone()])))].into_iter().collect()) }));
+    for a in &alias_vals {
+        let mut spec = CtxSpec::default_ctx();
+        spec.vars.push(("a".into(), a.clone()));
+        for src in ["[a == a, a != a]", "[a in [a], [a].contains(a)]", "[[a] == [a], {'k': a} == {'k': a}, {'k': a} != {'k': a}]", "[[a].exists(x, x == x), [a].all(x, x == a), [a, a].map(x, x == a)]", "[a, a].exists_one(x, x == a)"] {
+            if let Some(mut c) = eval_case_from_src(&spec, src) {
+                c.tags = vec!["program", "alias"];
+                out.push(c);
+            }
         }
     }
     // min/max over random small lists of mutually comparable values
